@@ -32,7 +32,7 @@ LEVEL = 'fault_enumeration'
 EXHAUSTIVE = True
 TC, TD = 11.0, 17.0
 
-RULE = ('server: every stall point of 3 client sessions (plain, STARTTLS, AUTH; + immediate TLS) -- before any byte, after each '
+RULE = ('server: every stall point of 4 client sessions (plain, varied incl. refused / unknown commands and a second transaction, STARTTLS, AUTH; + immediate TLS) -- before any byte, after each '
         'complete command, inside every command line, inside DATA after every byte count class, after end-of-data, at the TLS '
         'handshake, at an AUTH challenge -- x {silent, trickle 0.9 Tc, trickle 0.9 Td}; relay: every stage of the scripted '
         'peer x {stall, trickle} x PIPELINING on/off x SMTP/LMTP x TLS modes x AUTH + connect stall; pipe/HTTP: no answer, '
@@ -54,6 +54,10 @@ class NullQueue(object):
 SESSIONS = {
     'plain': dict(lines=[b'EHLO c\r\n', b'MAIL FROM:<a@x>\r\n', b'RCPT TO:<b@y>\r\n', b'DATA\r\n', b'Subject: s\r\n\r\nbody line\r\n.\r\n',
                          b'NOOP\r\n', b'QUIT\r\n'], kw={}),
+    # commands that are refused or unknown are completed commands too: the timeout counts from them
+    'varied': dict(lines=[b'HELO c\r\n', b'NOOP\r\n', b'BOGUS x\r\n', b'RCPT TO:<early@y>\r\n', b'MAIL FROM:<a@x>\r\n', b'RSET\r\n',
+                          b'MAIL FROM:<a2@x>\r\n', b'RCPT TO:<b@y>\r\n', b'RCPT TO:<c@y>\r\n', b'DATA\r\n',
+                          b'Subject: s\r\n\r\n.dot line\r\nsecond\r\n.\r\n', b'MAIL FROM:<a3@x>\r\n', b'QUIT\r\n'], kw={}),
     'starttls': dict(lines=[b'EHLO c\r\n', b'STARTTLS\r\n', 'TLS', b'EHLO c\r\n', b'MAIL FROM:<a@x>\r\n', b'QUIT\r\n'], kw={'tls': 'starttls'}),
     'immediate': dict(lines=['TLS', b'EHLO c\r\n', b'QUIT\r\n'], kw={'tls': 'immediate'}),
     'auth': dict(lines=['TLS', b'EHLO c\r\n', b'AUTH LOGIN\r\n', b'dXNlcg==\r\n', b'cHc=\r\n', b'MAIL FROM:<a@x>\r\n', b'QUIT\r\n'],
@@ -61,9 +65,10 @@ SESSIONS = {
 }
 
 
-def server_case(session, item, offset, trickle):
+def server_case(session, item, offset, trickle, pre=None):
     """Play SESSIONS[session] completely up to line ``item`` and ``offset`` bytes into it, then stall
-    (trickle=None) or continue one byte every ``trickle`` seconds."""
+    (trickle=None) or continue one byte every ``trickle`` seconds.  pre=[i, dt]: the earlier line i arrives one byte every dt
+    seconds (it completes in time; the timeout has to start afresh behind it)."""
     spec = SESSIONS[session]
     rec = {'replies': [], 'end': None, 'handler_exc': None, 'last_progress': 0.0, 'phase': 'command', 't354': None}
     with World(Chooser(), max_steps=5000) as w:
@@ -123,7 +128,12 @@ def server_case(session, item, offset, trickle):
                         state['sock'].sendall(line + spec['lines'][item][:offset])
                         rec['stall'] = ('joined', w.now)
                         return
-                    state['sock'].sendall(line)
+                    if pre is not None and i == pre[0]:
+                        for j in range(len(line)):
+                            gevent.sleep(pre[1])
+                            state['sock'].sendall(line[j:j + 1])
+                    else:
+                        state['sock'].sendall(line)
                     # the session runs in lock step: let the server answer before the next line
                     for _ in range(20):
                         gevent.sleep(0)
@@ -149,8 +159,9 @@ def server_deadline(session, item, offset, trickle, rec):
 
 
 def judge_server(case):
-    session, item, offset, trickle = case
-    rec = server_case(session, item, offset, trickle)
+    session, item, offset, trickle = case[:4]
+    pre = case[4] if len(case) > 4 else None
+    rec = server_case(session, item, offset, trickle, pre)
     out = []
     base = {'side': 'server', 'session': session}
     spec = SESSIONS[session]
@@ -159,6 +170,10 @@ def judge_server(case):
         session, what, 'silent' if trickle is None else ('pipelined with the previous line, then silent' if trickle == 'joined' else 'trickle every %gs' % trickle), rec['end'], rec['handler_exc'],
         [(t, l[:20]) for t, l in rec['replies'][-3:]])
     deadline, scope = server_deadline(session, item, offset, trickle, rec)
+    if pre is not None:
+        # the deadline counts from the stall instant (the slow line before it was completed in time)
+        desc += '; earlier line %r arrived one byte every %gs, stall began at t=%g' % (spec['lines'][pre[0]], pre[1], rec['stall'][1])
+        deadline = rec['stall'][1] + deadline
     if trickle == 'joined':
         trickle_n = None
     complete = trickle not in (None, 'joined') and item < len(spec['lines']) and spec['lines'][item] != 'TLS' and \
@@ -190,7 +205,7 @@ def server_cases(tier):
             if line == 'TLS':
                 yield (session, item, 0, None)
                 continue
-            offsets = range(0, len(line)) if (tier == 'thorough' or len(line) < 12) else [0, 1, len(line) // 2, len(line) - 2, len(line) - 1]
+            offsets = range(0, len(line))
             for off in offsets:
                 yield (session, item, off, None)
                 if off and item > 0 and isinstance(spec['lines'][item - 1], bytes) and spec['lines'][item - 1] != b'DATA\r\n' \
@@ -201,6 +216,30 @@ def server_cases(tier):
                 yield (session, item, off, t)
                 if prev == b'DATA\r\n':
                     yield (session, item, off, 0.9 * TC)
+                if tier == 'thorough':
+                    # more trickle rates: just under the limit, half of it, a small fraction (the line completes in time)
+                    for f in (0.99, 0.53, 0.047):      # no multiple of these is exactly 1
+                        yield (session, item, off, f * (TD if prev == b'DATA\r\n' else TC))
+
+
+def server_pair_cases():
+    """a slow (but timely) earlier command line, then silence at a later one: the timeout must have been re-armed"""
+    for session, spec in SESSIONS.items():
+        lines = spec['lines']
+        for i, li in enumerate(lines):
+            if li == 'TLS' or (i and lines[i - 1] == b'DATA\r\n'):
+                continue
+            dt = 0.047 * TC
+            if len(li) * dt >= TC:
+                continue
+            for j in range(i + 1, len(lines)):
+                lj = lines[j]
+                if lj == 'TLS' or lines[j - 1] == b'DATA\r\n' or (i < len(lines) - 1 and b'DATA\r\n' in lines[i:j] and False):
+                    continue
+                if b'DATA\r\n' in lines[i + 1:j]:
+                    continue        # the data phase has its own cumulative clock: kept to the single-stall cases
+                for off in (0, len(lj) // 2):
+                    yield (session, j, off, None, [i, dt])
 
 
 # ------------------------------------------------------------------ relay client side
@@ -234,7 +273,8 @@ def judge_relay(cfg, stage, how):
         script = {}
     else:
         scope = 13.0 if stage.startswith('eod') else 11.0
-        script = {stage: 'stall' if how == 'stall' else ('trickle', 0.9 * scope)}
+        frac = {'trickle': 0.9, 'trickle53': 0.53, 'trickle99': 0.99}.get(how, 0.9)
+        script = {stage: 'stall' if how == 'stall' else ('trickle', frac * scope)}
         if stage == 'auth' and how == 'stall-after-334':
             script = {'auth': 'stall-after-334'}
         if cfg.get('helo_fallback') and stage not in ('banner', 'ehlo'):
@@ -309,12 +349,20 @@ def relay_cases(tier):
         cfgs.append(dict(lmtp=lmtp, n=1, tls='starttls', auth=True))
     cfgs.append(dict(lmtp=False, n=1, helo_fallback=True))
     cfgs.append(dict(lmtp=False, n=2, helo_fallback=True, pipelining=False))
+    if tier == 'thorough':
+        for lmtp in (False, True):
+            for pl in (True, False):
+                cfgs.append(dict(lmtp=lmtp, pipelining=pl, n=3))
+                cfgs.append(dict(lmtp=lmtp, pipelining=pl, n=2, tls='starttls', auth=True))
     for cfg in cfgs:
         yield cfg, 'connect', 'stall'
         for st in relay_stages(cfg):
             yield cfg, st, 'stall'
             if st != 'tls':
                 yield cfg, st, 'trickle'
+                if tier == 'thorough':
+                    yield cfg, st, 'trickle53'
+                    yield cfg, st, 'trickle99'
         if cfg.get('auth'):
             yield cfg, 'auth', 'stall-after-334'
     # every recipient refused, DATA answered 354 all the same, then silence behind the lone dot the client has to send
@@ -514,7 +562,7 @@ def configs(tier, seed):
 def run_config(cfg, tier, seed):
     res = Result()
     if cfg['part'] == 'server':
-        for i, case in enumerate(server_cases(tier)):
+        for i, case in enumerate(itertools.chain(server_cases(tier), server_pair_cases())):
             if i % cfg['of'] != cfg['k']:
                 continue
             vs, rec = judge_server(case)
